@@ -1383,6 +1383,10 @@ p_socket_shutdown (PSocket	*socket,
 	if (P_UNLIKELY (pp_socket_check (socket, error) == FALSE))
 		return FALSE;
 
+	/* Any non-zero value means TRUE, as everywhere else in this file */
+	shutdown_read  = !! shutdown_read;
+	shutdown_write = !! shutdown_write;
+
 	if (P_UNLIKELY (shutdown_read == FALSE && shutdown_write == FALSE))
 		return TRUE;
 
